@@ -2,6 +2,7 @@ package main
 
 import (
 	"fmt"
+	"reflect"
 	"regexp"
 	"runtime/debug"
 	"sort"
@@ -611,6 +612,66 @@ func stripFunctionDefs(text string) string {
 		}
 		text = text[k:]
 	}
+}
+
+// footprint adds up the lengths of every slice and map reachable from v
+// (through pointers, interfaces, structs, slice elements and map values; by
+// reflection, unexported fields included).  It is a measure of how much an
+// evaluator is holding on to: it must not grow with the number of runs.
+func footprint(root interface{}) int64 {
+	seen := map[uintptr]bool{}
+	var walk func(v reflect.Value, depth int) int64
+	walk = func(v reflect.Value, depth int) int64 {
+		if depth > 14 || !v.IsValid() {
+			return 0
+		}
+		switch v.Kind() {
+		case reflect.Ptr:
+			if v.IsNil() || seen[v.Pointer()] {
+				return 0
+			}
+			seen[v.Pointer()] = true
+			return walk(v.Elem(), depth+1)
+		case reflect.Interface:
+			if v.IsNil() {
+				return 0
+			}
+			return walk(v.Elem(), depth+1)
+		case reflect.Struct:
+			var t int64
+			for i := 0; i < v.NumField(); i++ {
+				t += walk(v.Field(i), depth+1)
+			}
+			return t
+		case reflect.Slice:
+			if v.IsNil() {
+				return 0
+			}
+			t := int64(v.Len())
+			switch v.Type().Elem().Kind() {
+			case reflect.Ptr, reflect.Interface, reflect.Struct, reflect.Slice, reflect.Map:
+				for i := 0; i < v.Len() && i < 256; i++ {
+					t += walk(v.Index(i), depth+1)
+				}
+			}
+			return t
+		case reflect.Map:
+			if v.IsNil() {
+				return 0
+			}
+			t := int64(v.Len())
+			switch v.Type().Elem().Kind() {
+			case reflect.Ptr, reflect.Interface, reflect.Struct, reflect.Slice, reflect.Map:
+				it := v.MapRange()
+				for n := 0; it.Next() && n < 256; n++ {
+					t += walk(it.Value(), depth+1)
+				}
+			}
+			return t
+		}
+		return 0
+	}
+	return walk(reflect.ValueOf(root), 0)
 }
 
 func joinTrace(t []string) string { return strings.Join(t, ";") }
